@@ -1,4 +1,5 @@
 import Treepath.Proofs.NodeLemmas
+import Treepath.Proofs.RoundTrip
 /- C11 — a Match tells the truth about where its value lives -/
 namespace Treepath.C11
 variable {α : Type}
@@ -86,5 +87,46 @@ theorem pathMatchList_links (n : MNode α) (h : parFree n = true) :
     · exact .inr ⟨p, nm, d, hm, by subst hm; rfl⟩
   | imag p ih => simpa using ih (by simpa [parFree] using h)
   | par r f _ _ => simp [parFree] at h
+
+/-- **round trip**: `get_match(m.path, document)` finds the same location holding the same
+value: evaluating the explicit key / index path of a match whose chain is consistent with
+the document, from the document root, yields exactly that match (bookkeeping nodes erased) -/
+theorem get_match_of_path_finds_it (n : MNode J) (hc : Consistent n) :
+    evalE (toPath n) (rootOf n) = ([n.erase], none) :=
+  roundtrip n hc
+
+/-- key, index and filter steps keep the chain consistent with the document: the value of a
+selected node is what reading the parent's value at the node's name gives -/
+theorem single_steps_keep_consistency (s : Step J) (n m : MNode J) (hn : Consistent n)
+    (hs : match s with | .key _ | .idx _ | .filter _ => True | _ => False)
+    (hm : m ∈ (evalStep s n).1) : Consistent m := by
+  cases s <;> simp at hs
+  case key k =>
+    cases hd : n.data <;> simp [evalStep, Step.cls, singleOf, J.view, hd] at hm
+    obtain ⟨x, hx, rfl⟩ := hm
+    exact ⟨hn, by simp [lookupName, hd, hx]⟩
+  case idx i =>
+    cases hd : n.data <;> simp [evalStep, Step.cls, singleOf, J.view, hd] at hm
+    obtain ⟨x, hx, rfl⟩ := hm
+    exact ⟨hn, by simp [lookupName, hd, hx]⟩
+  case filter f =>
+    simp only [evalStep, Step.cls] at hm
+    cases hr : (f n).res with
+    | val j =>
+      simp only [hr] at hm
+      by_cases ht : j.truthy = true
+      · simp [ht] at hm; subst hm; exact hn
+      · simp [ht] at hm
+    | raise e => simp [hr] at hm
+
+/-- the key wildcard on a dict without duplicate keys (as every Python dict) keeps consistency -/
+theorem keyWc_keeps_consistency (n m : MNode J) (hn : Consistent n) (hk : n.data.KeysNodup)
+    (hm : m ∈ (evalStep .keyWc n).1) : Consistent m := by
+  cases hd : n.data <;> simp [evalStep, Step.cls, itemsOf, J.view, hd, dictItems] at hm
+  rename_i es
+  obtain ⟨k, x, hx, rfl⟩ := hm
+  refine ⟨hn, ?_⟩
+  simp only [lookupName, hd]
+  exact lookup_of_mem_nodup es k x hx (by simpa [J.KeysNodup, hd] using hk)
 
 end Treepath.C11
